@@ -7,8 +7,8 @@ EXTENDS ResilienceImpl, Resilience_Scn, Json
 VARIABLES out, pick
 
 (* vectors: the initial states, one per scenario (`pick`: see Resilience_MC) *)
-VInit(S) == pick \in S /\ IInitAs(pick) /\ out = ToJson([a |-> "init", sc |-> pick])
+VInit(In(_)) == In(pick) /\ IInitAs(pick) /\ out = ToJson([a |-> "init", sc |-> pick])
 VNext == UNCHANGED <<allvars, out, pick>>
-VAllSpec   == VInit(AllScenarios) /\ [][VNext]_<<allvars, out, pick>>
-VQuickSpec == VInit(QuickScenarios) /\ [][VNext]_<<allvars, out, pick>>
+VAllSpec   == VInit(InAll) /\ [][VNext]_<<allvars, out, pick>>
+VQuickSpec == VInit(InQuick) /\ [][VNext]_<<allvars, out, pick>>
 =============================================================================
